@@ -211,6 +211,31 @@ func checkC01(ctx *core.Ctx, rep *core.Report) {
 		}
 		rep.Sample(3, map[string]interface{}{"seed": st.Seed.Name, "path": st.Path, "bytes": len(st.DER)})
 	})
+	// revocation lists over the entry-list product (common.go), under the global registry and the filtered ones
+	{
+		maxLen := 2
+		if !ctx.Quick() {
+			maxLen = 3
+		}
+		n := crlEntryStates(ctx, all, maxLen, func(st *xstate.State) {
+			rep.Inc("states")
+			rep.Inc("transitions")
+			for _, nr := range []NamedReg{d1regs[0], d1regs[1+int(st.Hash>>8)%(len(d1regs)-1)]} {
+				rs, p := zl.Lint(st.Obj, nr.Reg)
+				rep.Inc("runs")
+				rep.Inc("validated")
+				report(st, nr.Name, "empty", rsInvariant(st.Obj, nr.Reg, rs, p))
+				if nr.Name == "global" && rs != nil {
+					for name, r := range rs.Results {
+						if r != nil {
+							rep.Tab("lint_outcome", name+"|"+r.Status.String())
+						}
+					}
+				}
+			}
+		})
+		rep.Add("crl_entry_list_states", int64(n))
+	}
 	// nil object / nil registry clauses, once
 	if ctx.Shard == 0 {
 		if zlint.LintCertificateEx(nil, nil) != nil || zlint.LintRevocationListEx(nil, nil) != nil || zlint.LintOcspResponseEx(nil, nil) != nil {
